@@ -488,6 +488,15 @@ def gen_cases(rng, tier):
                        dense="sparse" if i % 3 else True, labels=(i % 4 == 3))
         cases.append({"kind": "bpi", "pomdp": pc, "nodes": 3 + i % 2 if i % 5 else 2, "seed": i % 3 if tier == "quick" else rng.randint(0, 9),
                       "iterations": 8, "improve_fn": "matrix", "prefix": True, "runs": 1, "run_seed": rng.randrange(10 ** 6), "max_steps": 5})
+    # BPI runs that END THROUGH THE CONVERGENCE TEST (enough iterations; convergence_diff default / 1e-2 / 1.0, so the test
+    # also passes in sweeps that did improve some node): reported value and table certified against the RETURNED controller
+    # at 1e-7 relative, far below convergence_diff
+    n_conv = 9 if tier == "quick" else 30
+    for i in range(n_conv):
+        pc = gen_pomdp(rng, abs_kind="none", smin=2, smax=3, amin=2, amax=2, omin=2, omax=2, dense=("sparse" if i % 2 else True), labels=(i % 4 == 1))
+        cases.append({"kind": "bpi", "pomdp": pc, "nodes": 2 + i % 2, "seed": i % 3 if tier == "quick" else rng.randint(0, 9),
+                      "iterations": 30, "improve_fn": "matrix", "convergence_diff": ["1/100000", "1/100", "1"][i % 3],
+                      "runs": 1, "run_seed": rng.randrange(10 ** 6), "max_steps": 5})
     n_ga = 6 if tier == "quick" else 60
     for i in range(n_ga):
         kind = ["none", "benign", "paying"][i % 3]
@@ -506,6 +515,12 @@ def gen_cases(rng, tier):
             if i % 6 == 5:
                 c["pomdp_prev"] = gen_pomdp(rng, smin=3, smax=4, amin=2, amax=3, omin=1, omax=3, labels=True)
         cases.append(c)
+    # a third of all cases: the POMDP object was first evaluated under ANOTHER discount rate, then its
+    # discount_rate attribute was reassigned (results must follow the object's current parameters)
+    for j, c in enumerate(cases):
+        if j % 3 == 1:
+            g = c["pomdp"]["gamma"]
+            c["gamma_first"] = rng.choice([x for x in ("1/4", "3/5", "7/8", "19/20") if x != g])
     return cases
 
 
@@ -674,6 +689,9 @@ def run(ctx):
                          ("bundled_domain", "domain" in gpc), ("gamma_0", pc["gamma"] == "0"), ("gamma_int", bool(gpc.get("gamma_int"))),
                          ("gamma_near_1", pc["gamma"] == GAMMA_NEAR1), ("reused_learner", bool(case.get("pomdp_prev"))),
                          ("seed_0", case.get("seed") == 0), ("iterations_0", case.get("iterations") == 0),
+                         ("discount_reassigned_on_used_pomdp_object", bool(case.get("gamma_first"))),
+                         ("bpi_ended_through_convergence_test", case["kind"] == "bpi" and bool((res.get("result") or {}).get("converged"))),
+                         ("bpi_convergence_diff_" + str(case.get("convergence_diff")), case["kind"] == "bpi" and bool(case.get("convergence_diff"))),
                          ("nondyadic", bool(gpc.get("nondyadic"))), ("shared_mutable_definition_objects", bool(gpc.get("shared_objects"))),
                          ("int_rewards", bool(gpc.get("int_rewards"))), ("long_episode_1500", bool(case.get("long_run"))),
                          ("int_table_controller", res.get("hist_int2") is not None),
